@@ -293,7 +293,7 @@ def find_buildsystem_files_list(src_dir: str) -> T.List[str]:
     build_files = frozenset({'meson.build', 'meson.options', 'meson_options.txt'})
     # I feel dirty about this. But only slightly.
     filelist: T.List[str] = []
-    for root, _, files in os.walk(src_dir):
+    for root, _, files in sorted(os.walk(src_dir)):
         filelist.extend(os.path.relpath(os.path.join(root, f), src_dir)
                         for f in sorted(build_files.intersection(files)))
     return filelist
